@@ -7,7 +7,7 @@ THEOREMS = ["C09_new_ids_are_fresh", "C09_handed_out_ids_distinct", "C09_reachab
             "C09_versions_stay_until_deleted_by_id", "C09_delete_adds_marker_and_hides_key", "C09_deleting_newest_reexposes_previous",
             "C09_listing_is_exact", "C09_listing_shape", "C09_listing_one_group_per_key"]
 TARGETS = ["Properties/C09.vo", "Check/VersionsCheck.vo"]
-KEYS = ["doc", "dir/file b", "ü-key", "a/b/c/deep"]
+KEYS = ["doc", "dir/file b", "ü-key", "a/b/c/deep", "y/.sgwtmp", "y/z", "x/.sgwtmp/h"]      # (the last three: names of the bookkeeping directory below the top level are ordinary keys)
 METAS = [({}, {}), ({"content-type": "text/x-c09"}, {"who": "me"}), ({"content-type": "application/json", "cache-control": "no-cache"}, {"a": "1", "b": "two words"})]
 ERR = {1: "NoSuchKey", 2: "NoSuchVersion", 3: "MethodNotAllowed"}
 ERRMAP = {"NoSuchKey": "NoSuchKey", "NoSuchVersion": "NoSuchVersion", "InvalidVersionId": "NoSuchVersion", "InvalidArgument": "NoSuchVersion", "MethodNotAllowed": "MethodNotAllowed"}
@@ -39,6 +39,8 @@ SCRIPTS = [
     # the null version is newer than a version with an id (a suspension in the middle): removing the current version re-exposes it
     [("status", "Enabled"), ("put", 0), ("status", "Suspended"), ("put", 0), ("status", "Enabled"), ("put", 0), ("list",), ("delete-current", 0), ("get", 0), ("list",),
      ("delete-current", 0), ("get", 0), ("list",)],
+    # keys with an element named like the bookkeeping directory, deeper than the top level
+    [("status", "Enabled"), ("put", 4), ("put", 5), ("put", 6), ("put", 0), ("list",), ("delete", 5), ("put", 4), ("list",), ("delete-current", 4), ("list",)],
 ]
 
 
@@ -419,6 +421,19 @@ def run(chk):
                 listed += [x.findtext("VersionId") for x in lv.xml().findall("Version")]
                 if lv.xml().findtext("IsTruncated") != "true": break
                 km, vm = lv.xml().findtext("NextKeyMarker") or "", lv.xml().findtext("NextVersionIdMarker") or ""
+            # the same against the backend itself (no HTTP in between: most adjacent writes fall into one millisecond, where only the
+            # monotonic part of the id generator orders them)
+            import subprocess
+            pb = subprocess.run([gobuild.build_tool("corr"), "versionburst"], input=b"3000\n", stdout=subprocess.PIPE, stderr=subprocess.PIPE, env=common.env(), timeout=300)
+            ub = (pb.stdout.decode().strip().splitlines() or [""])[-1].split()
+            chk.case(("burst-unit", 3000), True); chk.traces += 1
+            if len(ub) == 4 and ub[0].isdigit():
+                chk.count("burst-unit:same-millisecond-pairs:%s" % ("many" if int(ub[3]) > 100 else ub[3]))
+                if ub[0] != "3000" or ub[1] != ub[0] or ub[2] != "-1":
+                    chk.fail("c09:burst:listing-not-newest-first", "3000 overwrites of one key issued to the posix backend back to back (%s adjacent pairs within one millisecond): %s acknowledged, %s listed, "
+                             "the listing differs from the acknowledgements in reverse at position %s" % (ub[3], ub[0], ub[1], ub[2]), {"answer": ub})
+            else:
+                chk.tie("corr versionburst ran", False, (pb.stdout.decode() + pb.stderr.decode())[-600:])
             want = [v for _, v in reversed(acks)]
             same_ms = sum(1 for (_, a), (_, b) in zip(acks, acks[1:]) if a and b and a[:10] == b[:10])
             chk.case(("burst", nburst), True); chk.traces += 1; chk.count("burst:same-millisecond-pairs:%d" % min(same_ms, 5))
